@@ -272,6 +272,58 @@ def exh_histories(actions, gaps, depth, t1=None, t2=None):
                 yield ops
 
 
+# ------------------------------------------------------------------------------------------
+# D23 (outside C04's quantifier: "browsers created while no expired-but-unpurged pointer record of their types is cached")
+
+D23_SIG = "C04:created-over-expired-unpurged:never-added-after-refresh"
+
+
+def d23_histories():
+    """a pointer record expires; a browser is created before the 10 s purge removes it; the instance announces itself again"""
+    for tpl, types in ((VOCAB[0], [TX]), (VOCAB[14], [TZ]), (VOCAB[3], [TY, TX])):
+        for ttl in (120, 4500):
+            eff = max(ttl, 1125)
+            t0 = CC.T0 + 800
+            exp = t0 + 1000 * eff
+            for off in (0, 1, 4200, 9999):
+                for ttl2 in (120, 4500):
+                    create = exp + off
+                    ops = [["D", t0, [CC.inst(tpl, ttl, 0)], []],
+                           ["BA", 1, create, list(types)],
+                           ["D", create + 100, [CC.inst(tpl, ttl2, 0)], []],
+                           ["X", (create // 10000 + 1) * 10000],
+                           ["D", (create // 10000 + 1) * 10000 + 500, [CC.inst(tpl, ttl2, 0)], []]]
+                    yield ops
+
+
+def oracle_d23(probes, ops, obs, res):
+    """the C04 predicates on a history that creates a browser over an expired-but-unpurged pointer record: reported under the D23
+    signature only where the record has been announced again since (it is alive in the reference) and the browser still has not Added it"""
+    found = oracle(probes, ops, obs, res)
+    ref = CC.Ref()
+    alive_after = {}
+    seen_ba = False
+    for idx, op in enumerate(ops):
+        if op[0] == "D":
+            ref.datagram(op[1], op[2])
+            alive_after[idx] = seen_ba and any(i[0] == "p" and e[0] + 1000 * e[1] > op[1] for i, e in ref.d.items())
+        elif op[0] == "X":
+            ref.purge(op[1])
+            alive_after[idx] = seen_ba and any(i[0] == "p" and e[0] + 1000 * e[1] > op[1] for i, e in ref.d.items())
+        elif op[0] == "BA":
+            seen_ba = True
+    out = []
+    for idx, sig, what in found:
+        if sig == "C04:cached-not-added" and alive_after.get(idx):
+            out.append((idx, D23_SIG, "a browser created while an expired-but-unpurged pointer record was cached: the instance announced itself "
+                        "again (the cached entry was refreshed in place and handed to the browser as (new, old=the stale entry)), yet " + what))
+    return out
+
+
+def d23_valid(ops):
+    return (not well_formed(ops)) and any(o[0] == "BA" for o in ops)
+
+
 def run(ctx):
     res = C.Result("C04")
     t0 = time.time()
@@ -303,6 +355,12 @@ def run(ctx):
             res.notes.append("bounded enumeration cut short by the time budget after %d histories" % n_exh)
             break
     res.exhaustive = complete
+
+    # D23: browser creation between a pointer's expiry and the purge, then a fresh announcement (outside the quantifier; known finding)
+    run_d23 = CC.Runner(res, "C04", ctx, oracle_d23, valid=d23_valid)
+    for ops in d23_histories():
+        run_d23.add("d23-created-over-expired-unpurged", probes, ops)
+    run_d23.finish()
 
     # outside the quantifier: model correspondence only (exercises the Added > Removed > Updated precedence, which WFHist makes unreachable)
     probes_w = CC.vocab_probes(VOCAB_WILD, [TX, TY, TZ])
